@@ -810,11 +810,42 @@ func c10GenStale(rng *vh.Rand, c *c10Case) {
 	if rng.Bool() {
 		lose = fmt.Sprintf("R%d", rng.Intn(L+1))
 	}
+	if rng.Bool() {
+		// the run after the loss pre-loads from the state file (which is also the save file) but the store is down:
+		// every pre-load fetch fails (errors are dropped) and the run dies without saving
+		nonNull, off := 0, 0
+		blob := vh.UnHex(c.BlobHex)
+		for _, sz := range c.Sizes {
+			if !(sz == c.Max && bytes.Equal(blob[off:off+sz], make([]byte, sz))) {
+				nonNull++
+			}
+			off += sz
+		}
+		for k := 0; k < nonNull; k++ { // calls 0..nonNull-1 populated the cache; the next nonNull calls are the pre-load
+			c.Faults = append(c.Faults, c09Fault{K: nonNull + k, Code: 2})
+		}
+		c.Script = append(c.Script, "X:1:"+lose+":1", "DA", "X:1:K:0", "DA", fmt.Sprintf("Q2:R:0:%d", L), "D2")
+		return
+	}
 	c.Script = append(c.Script, "X:1:"+lose+":0", "DA")
 	for i := 0; i < rng.Intn(3); i++ {
 		c.Script = append(c.Script, c10ReadTok(rng, 1, c.Sizes, c.Max), "D1")
 	}
 	c.Script = append(c.Script, "X:1:K:0", "DA", fmt.Sprintf("Q2:R:0:%d", L), "D2")
+}
+
+// a load fails AFTER the fetch (the object cannot be decoded), then the same range is read again: by the same
+// goroutine, by another one, after a WriteState + restart on the same files
+func c10GenReread(rng *vh.Rand, c *c10Case) {
+	tok := c10ReadTok(rng, 0, c.Sizes, c.Max)
+	for k := 0; k < 1+rng.Intn(3); k++ {
+		c.Faults = append(c.Faults, c09Fault{K: rng.Intn(4), Code: []int{3, 3, 2}[rng.Intn(3)]})
+	}
+	c.Script = append(c.Script, tok, "D0", tok, "D0", strings.Replace(tok, "Q0", "Q1", 1), "D1")
+	if rng.Bool() {
+		c.Script = append(c.Script, "Q0:S", "D0", "X:1:K:0", "DA", strings.Replace(tok, "Q0", "Q2", 1), "D2")
+	}
+	c.Script = append(c.Script, tok, "D0")
 }
 
 func runC10(a vh.Args, o *vh.Oracle, r *vh.Result) error {
@@ -844,6 +875,11 @@ func runC10(a vh.Args, o *vh.Oracle, r *vh.Result) error {
 		cc := &c09Case{Sizes: c.Sizes}
 		c09GenFaults(rng, cc, expect)
 		c.Faults, c.Missing = cc.Faults, cc.Missing
+		for i := range c.Faults { // some failures happen after the fetch: the object cannot be decoded
+			if rng.Chance(1, 3) {
+				c.Faults[i].Code = 3
+			}
+		}
 	}
 	for i := 0; i < nSeq; i++ {
 		c := mk("seq")
@@ -860,7 +896,17 @@ func runC10(a vh.Args, o *vh.Oracle, r *vh.Result) error {
 			return err
 		}
 	}
-	for i := 0; i < nConc/10; i++ {
+	for i := 0; i < nConc/4; i++ {
+		c := mk("reread")
+		if len(c.Sizes) == 0 {
+			continue
+		}
+		c10GenReread(rng, c)
+		if err := c10Check(a, o, r, c); err != nil {
+			return err
+		}
+	}
+	for i := 0; i < nConc/5; i++ {
 		c := mk("stale")
 		if len(c.Sizes) == 0 {
 			continue
